@@ -76,9 +76,9 @@ def _deref():
                             return s + r"\],"
                         rp = {"kind": "deref", "present": present, "level": G.OPER,
                               "fields": ({f: REPS[leaf][f] for f in present} if isinstance(leaf, str) else None)}
-                        return node_obligations(DF, sid, ["C06", "C02", "C07", "C05"], G.OPER, build, spec, levels, replay=rp,
+                        return node_obligations(DF, sid, ["C06", "C02", "C07", "C11", "C05"], G.OPER, build, spec, levels, replay=rp,
                                                 shapes=["one", "sym", (0, 2), (2, 2)], unit=True)
-                    scenario(sid, DF, ["C06", "C02", "C07", "C05"],
+                    scenario(sid, DF, ["C06", "C02", "C07", "C11", "C05"],
                              inlined=["DerefObjectBuilder.build/_child_getter", "DerefObject.__init__/get_regex/"
                                       "_form_regex_with_some_elem_missing/_get_regex_from_full_deref",
                                       "PatternNodeDerefProperty.get_regex", "TimesTypeBuilder.get_min_max_regex"],
